@@ -32,7 +32,12 @@ public:
     {
         mLog->v.add(Val::List({Val::Int(30), Val::List({Val::Int(30), Val::Int(mId)})}));
         bool accept = mFlag == 0 ? false : (mFlag == 2 ? socket->headers().contains("X-Pass") : true);
-        if (!accept) { socket->writeError(Socket::Forbidden); return false; }
+        if (!accept) {
+            // refusal style by id: a complete 403, nothing at all, or a fragment of its own with the connection left open
+            if (mId < 1000) socket->writeError(Socket::Forbidden);
+            else if (mId >= 2000) socket->write("denied");
+            return false;
+        }
         return true;
     }
 private:
